@@ -222,7 +222,10 @@ def check_format(F, real_fmts, setter, getter_name, modes):
             for x in (65520.0, 1e5, 1e300, -65520.0, -1e5, -1e300):
                 evals += 1
                 want = F.round(math.inf if x > 0 else -math.inf, mode)
-                got = int(setter(x).slice_to_uint())
+                try:
+                    got = int(setter(x).slice_to_uint())
+                except Exception as e:              # (an encoder that raises on a finite out-of-range value is a failed obligation, not a crash)
+                    got = f'{type(e).__name__}: {e}'[:80]
                 if got != want and badw is None:
                     badw = {'inputs': {'format': F.name, 'mode': mode, 'value': repr(x), 'got': got, 'spec': want},
                             'python': f"import bitstring\nbitstring.options.mxfp_overflow = {mode!r}\n"
@@ -526,6 +529,31 @@ def scale_divides(tier='quick', seed=0):
                                             f"FAILS = b(lambda: D({fmt!r}, scale={s_!r}).build({x!r})) != b(lambda: D({fmt!r}).build({x!r} / {s_!r}))\n"})
                     break
             if len(fails) > 4:
+                break
+    # Array.astype to the same format with another scale keeps the *values* (re-encoded under the new scale), not the codes
+    from bitstring import Array
+    for fmt in fmts:
+        codes = [c for c in range(0, 256, 7)] if Dtype(fmt).bitlength == 8 else list(range(0, 1 << min(Dtype(fmt).bitlength, 6)))
+        vals = []
+        for c in codes:
+            try:
+                v = getattr(Bits(uint=c, length=Dtype(fmt).bitlength), fmt)
+            except Exception:
+                continue
+            if isinstance(v, float) and math.isfinite(v):
+                vals.append(v)
+        for s1, s2 in ((None, 4), (4, None), (2, 0.5), (None, 2 ** -3)):
+            evals += 1
+            try:
+                a = Array(Dtype(fmt, scale=s1) if s1 is not None else fmt, [v * (s1 or 1) for v in vals])
+                b = a.astype(Dtype(fmt, scale=s2) if s2 is not None else Dtype(fmt))
+                want = Array(Dtype(fmt, scale=s2) if s2 is not None else fmt, a.tolist()).tolist()
+                ok = b.tolist() == want
+            except Exception as e:
+                ok = False
+            if not ok:
+                fails.append({'call': f"Array({fmt!r} scale={s1}).astype(Dtype({fmt!r}, scale={s2}))", 'observed': 'codes reinterpreted instead of values re-encoded',
+                              'python': f"import bitstring\nfrom bitstring import Array, Dtype\na = Array({fmt!r}, [1.0, 0.5])\nb = a.astype(Dtype({fmt!r}, scale=4))\nFAILS = b.tolist() != Array(Dtype({fmt!r}, scale=4), [1.0, 0.5]).tolist()\n"})
                 break
     return {'id': 'C11.scale', 'obligations': [], 'evaluations': evals,
             'bounded': [{'id': 'C11/dtypes.scaled_set_fn/scale-divides-before-encoding', 'qualname': 'dtypes.scaled_set_fn', 'shape': 'formats x scales x boundary values',
